@@ -18,6 +18,7 @@ type decision struct {
 	val       uint64 // concretised value (for value-enumeration decisions)
 	hasVal    bool
 	unchecked bool // alternative switched to by backtracking, feasibility not yet checked
+	swapped   bool // binary decision explored in the order (1, 0): the cached model supported alternative 1
 	lazy      bool // taken without a feasibility query (LazyFork mode)
 	limit     int  // exclusive upper bound of the choices explored by this worker (0 = n)
 }
@@ -109,6 +110,11 @@ type Interp struct {
 	concTape  []uint64 // concrete tape mode (translator validation): values for nondets
 	concPos   int
 	sched     *sched
+	curFr     *frame
+	spec      *specLog // non-nil while an if-conversion arm is executed speculatively
+	curInstr  ssa.Instruction
+	ev        *evaluator // cached model of pc (nil when unknown)
+	trusted   *Term      // constraint just established by feasible(), about to be added to pc
 }
 
 func (in *Interp) info(fn *ssa.Function) *funcInfo {
@@ -249,12 +255,50 @@ func (in *Interp) addPC(c *Term) {
 		return
 	}
 	in.pc = append(in.pc, c)
+	// keep track of whether the cached model still satisfies the path condition
+	if in.ev != nil && in.trusted != c {
+		if v, ok := in.ev.eval(c); !ok || v != 1 {
+			in.ev = nil
+		}
+	}
+	in.trusted = nil
 }
 
+// modelVars lists the input variables whose values make up a model.
+func (in *Interp) modelVars() []*Term {
+	var vs []*Term
+	for _, e := range in.tape {
+		if e.term.op == OpVar {
+			vs = append(vs, e.term)
+		}
+	}
+	return vs
+}
+
+// feasible decides whether pc ∧ extra is satisfiable, first by evaluating extra under the cached
+// model of pc (no solver call), otherwise by a query whose model is cached.
 func (in *Interp) feasible(extra *Term) bool {
-	r, _ := in.sol.Check(in.pc, extra, nil)
+	if in.ev != nil && !in.cfg.NoModelCache {
+		if v, ok := in.ev.eval(extra); ok && v == 1 {
+			in.res.ModelHits++
+			in.trusted = extra
+			return true
+		}
+	}
+	var want []*Term
+	if !in.cfg.NoModelCache {
+		want = in.modelVars()
+	}
+	r, m := in.sol.Check(in.pc, extra, want)
 	if r == Unknown {
 		in.res.UnknownFeas++
+	}
+	if r == Sat && !in.cfg.NoModelCache {
+		if m == nil {
+			m = map[*Term]uint64{}
+		}
+		in.ev = newEvaluator(m)
+		in.trusted = extra
 	}
 	return r != Unsat
 }
@@ -277,6 +321,17 @@ func (in *Interp) fork(c *Term) bool {
 	return ch == 0
 }
 
+func (in *Interp) donateRest(from, n int, tmpl decision) {
+	for j := from; j < n; j++ {
+		p := make([]decision, len(in.decisions)+1)
+		copy(p, in.decisions)
+		d := tmpl
+		d.choice = j
+		p[len(in.decisions)] = d
+		in.sched.donate(p)
+	}
+}
+
 // decide picks one of n alternatives with path constraints alt(i).
 func (in *Interp) decide(n int, alt func(int) *Term, vals func(int) (uint64, bool)) int {
 	if in.noFork {
@@ -288,25 +343,29 @@ func (in *Interp) decide(n int, alt func(int) *Term, vals func(int) (uint64, boo
 		if d.n != n {
 			panic(fmt.Sprintf("internal: nondeterministic re-execution (decision %d: n=%d, recorded %d)", in.dpos-1, n, d.n))
 		}
-		c := alt(d.choice)
+		eff := d.choice
+		if d.swapped {
+			eff = 1 - d.choice
+		}
+		c := alt(eff)
 		if d.unchecked && !d.lazy {
 			d.unchecked = false
 			if !in.feasible(c) {
+				if in.cfg.Progress {
+					in.res.Events["dead alternative at "+in.curLoc()]++
+				}
 				panic(pathDead{})
 			}
 		}
 		in.addPC(c)
-		return d.choice
+		return eff
 	}
 	if in.cfg.LazyFork && n == 2 && vals == nil {
 		// lazy mode: take the branch without asking the solver; infeasible paths are discarded at
 		// their first assertion (unsat) or at path end
 		d := decision{choice: 0, n: 2, lazy: true}
 		if in.sched != nil && in.sched.hungry() {
-			p := make([]decision, len(in.decisions)+1)
-			copy(p, in.decisions)
-			p[len(in.decisions)] = decision{choice: 1, n: 2, lazy: true}
-			in.sched.donate(p)
+			in.donateRest(1, 2, decision{n: 2, lazy: true})
 			d.limit = 1
 		}
 		in.decisions = append(in.decisions, d)
@@ -314,6 +373,26 @@ func (in *Interp) decide(n int, alt func(int) *Term, vals func(int) (uint64, boo
 		in.addPC(alt(0))
 		in.res.Forks++
 		return 0
+	}
+	if n == 2 && in.ev != nil && !in.cfg.NoModelCache {
+		// the cached model of pc tells which side is certainly feasible: take it first, no query
+		if v, ok := in.ev.eval(alt(0)); ok {
+			first := 0
+			if v != 1 {
+				first = 1
+			}
+			in.res.ModelHits++
+			d := decision{choice: 0, n: 2, swapped: first == 1}
+			if in.sched != nil && in.sched.hungry() {
+				in.donateRest(1, 2, decision{n: 2, swapped: first == 1, unchecked: true})
+				d.limit = 1
+			}
+			in.decisions = append(in.decisions, d)
+			in.dpos++
+			in.addPC(alt(first))
+			in.res.Forks++
+			return first
+		}
 	}
 	// new decision: first feasible alternative
 	for i := 0; i < n; i++ {
@@ -328,12 +407,7 @@ func (in *Interp) decide(n int, alt func(int) *Term, vals func(int) (uint64, boo
 		if in.feasible(c) {
 			d := decision{choice: i, n: n}
 			if in.sched != nil && in.sched.hungry() {
-				for j := i + 1; j < n; j++ {
-					p := make([]decision, len(in.decisions)+1)
-					copy(p, in.decisions)
-					p[len(in.decisions)] = decision{choice: j, n: n, unchecked: true}
-					in.sched.donate(p)
-				}
+				in.donateRest(i+1, n, decision{n: n, unchecked: true})
 				d.limit = i + 1
 			}
 			in.decisions = append(in.decisions, d)
@@ -382,14 +456,27 @@ func (in *Interp) concretise(t *Term, what string) uint64 {
 			in.addPC(ne)
 			continue
 		}
-		r, m := in.sol.Check(in.pc, nil, []*Term{t})
-		if r != Sat {
-			if r == Unknown {
-				panic(budgetExceeded{"solver unknown while concretising " + what})
+		got := false
+		if in.ev != nil && !in.cfg.NoModelCache {
+			if v0, ok := in.ev.eval(t); ok {
+				v, got = v0, true
+				in.res.ModelHits++
 			}
-			panic(pathDead{})
 		}
-		v = m[t]
+		if !got {
+			want := append([]*Term{t}, in.modelVars()...)
+			r, m := in.sol.Check(in.pc, nil, want)
+			if r != Sat {
+				if r == Unknown {
+					panic(budgetExceeded{"solver unknown while concretising " + what})
+				}
+				panic(pathDead{})
+			}
+			v = m[t]
+			if !in.cfg.NoModelCache {
+				in.ev = newEvaluator(m)
+			}
+		}
 		in.res.Concretisations++
 		d := decision{choice: 0, n: 2, val: v, hasVal: true}
 		if in.sched != nil && in.sched.hungry() {
@@ -523,6 +610,19 @@ func (in *Interp) callSSA(caller *frame, fn *ssa.Function, args []Value, env []V
 	for i, fv := range fn.FreeVars {
 		fr.env[fi.index[fv]] = env[i]
 	}
+	if len(in.cfg.Concretize) > 0 {
+		if ps, ok := in.cfg.Concretize[name]; ok {
+			for _, p := range fn.Params {
+				for _, want := range ps {
+					if p.Name() == want {
+						if t, isT := fr.env[fi.index[p]].(*Term); isT && !t.IsConst() {
+							fr.env[fi.index[p]] = in.tb.BV(t.w, in.concretise(t, name+":"+want))
+						}
+					}
+				}
+			}
+		}
+	}
 	fr.block = fn.Blocks[0]
 	for fr.block != nil {
 		in.runFrame(fr)
@@ -596,6 +696,7 @@ func (in *Interp) runFrame(fr *frame) {
 			}
 			switch ins := blk.Instrs[i].(type) {
 			case *ssa.If:
+				in.curFr, in.curInstr = fr, ins
 				c := in.get(fr, ins.Cond).(*Term)
 				if !c.IsConst() && in.tryIfConvert(fr, blk, c) {
 					break instrs
@@ -628,6 +729,7 @@ func (in *Interp) runFrame(fr *frame) {
 				x := in.get(fr, ins.X)
 				panic(&goPanic{v: x, msg: in.panicMsg(x)})
 			default:
+				in.curFr, in.curInstr = fr, ins
 				in.exec(fr, ins)
 			}
 		}
@@ -1158,7 +1260,7 @@ func (in *Interp) tryIfConvert(fr *frame, blk *ssa.BasicBlock, c *Term) (done bo
 				if x.Op == token.ARROW {
 					return nil
 				}
-			case *ssa.Convert, *ssa.ChangeType, *ssa.FieldAddr, *ssa.IndexAddr, *ssa.Field, *ssa.Index, *ssa.Extract, *ssa.DebugRef:
+			case *ssa.Convert, *ssa.ChangeType, *ssa.FieldAddr, *ssa.IndexAddr, *ssa.Field, *ssa.Index, *ssa.Extract, *ssa.DebugRef, *ssa.Store:
 			default:
 				return nil
 			}
@@ -1200,6 +1302,7 @@ func (in *Interp) tryIfConvert(fr *frame, blk *ssa.BasicBlock, c *Term) (done bo
 		in.noFork = true
 		defer func() {
 			in.noFork = prevNoFork
+			in.spec = nil
 			if r := recover(); r != nil {
 				switch r.(type) {
 				case specAbort, *goPanic, unsupported:
@@ -1209,14 +1312,50 @@ func (in *Interp) tryIfConvert(fr *frame, blk *ssa.BasicBlock, c *Term) (done bo
 				}
 			}
 		}()
-		for _, arm := range []*ssa.BasicBlock{arm0, arm1} {
+		var logs [2]*specLog
+		for ai, arm := range []*ssa.BasicBlock{arm0, arm1} {
 			if arm == nil {
 				continue
 			}
+			in.spec = &specLog{idx: map[string]int{}}
 			for _, ins := range arm.Instrs[:len(arm.Instrs)-1] {
 				in.exec(fr, ins)
 			}
+			logs[ai] = in.spec
+			in.spec = nil
 		}
+		// merge speculative stores: location := ite(c, value on arm0, value on arm1)
+		type merged struct {
+			p      Pointer
+			v0, v1 *Term
+		}
+		var ms []merged
+		seen := map[string]int{}
+		for ai, lg := range logs {
+			if lg == nil {
+				continue
+			}
+			for _, w := range lg.writes {
+				k, ok := seen[w.key]
+				if !ok {
+					k = len(ms)
+					seen[w.key] = k
+					ms = append(ms, merged{p: w.p, v0: w.old, v1: w.old})
+				}
+				if ai == 0 {
+					ms[k].v0 = w.new
+				} else {
+					ms[k].v1 = w.new
+				}
+			}
+		}
+		defer func() {
+			if ok {
+				for _, m := range ms {
+					in.store(m.p, in.tb.Ite(c, m.v0, m.v1))
+				}
+			}
+		}()
 		var vals []Value
 		nphi := 0
 		for _, ins := range join.Instrs {
@@ -1268,3 +1407,23 @@ func shortPos(prog *ssa.Program, pos token.Pos) string {
 	}
 	return fmt.Sprintf("%s:%d", f, p.Line)
 }
+
+func (in *Interp) curLoc() string {
+	if in.curFr == nil || in.curInstr == nil {
+		return "?"
+	}
+	return in.curFr.fn.Name() + " " + shortPos(in.prog, in.curInstr.Pos()) + fmt.Sprintf(" (%T)", in.curInstr)
+}
+
+// specLog records the stores of a speculatively executed arm (if-conversion with memory effects).
+type specWrite struct {
+	p        Pointer
+	key      string
+	old, new *Term
+}
+type specLog struct {
+	writes []specWrite
+	idx    map[string]int
+}
+
+func specKey(p Pointer) string { return fmt.Sprintf("%p%v", p.obj, p.path) }
